@@ -360,18 +360,18 @@ static int lbuf_seq(struct lbuf *lb)
 	return lb->hist_u ? lb->hist[lb->hist_u - 1].seq : lb->useq_last;
 }
 
-/* mark buffer as saved and, if clear, clear the undo history */
+/* mark buffer as saved and, if clear, clear the undo history (clear < 0: mark it as modified) */
 void lbuf_saved(struct lbuf *lb, int clear)
 {
 	int i;
-	if (clear) {
+	if (clear > 0) {
 		for (i = 0; i < lb->hist_n; i++)
 			lopt_done(&lb->hist[i]);
 		lb->hist_n = 0;
 		lb->hist_u = 0;
 		lb->useq_last = lb->useq;
 	}
-	lb->useq_zero = lbuf_seq(lb);
+	lb->useq_zero = clear < 0 ? -1 : lbuf_seq(lb);
 	lbuf_modified(xb);
 }
 
